@@ -691,7 +691,12 @@ class RotationImplemented(BaseAlignmentModel):
             _template = [_template]
         if _mask.ndim == 3:
             _mask = [_mask]
-        for quat, tmp, mask in zip(self.quaternions, _template, _mask):
+        # candidates are ordered as (rot0, temp0), (rot0, temp1), ..., (rot1, temp0), ...
+        n_templates = self._n_templates
+        if len(_mask) == 1:
+            _mask = [_mask[0]] * len(_template)
+        for i, (tmp, mask) in enumerate(zip(_template, _mask)):
+            quat = self.quaternions[i // n_templates]
             pool.add_task(
                 self.pre_transform(img_input * mask, xp),
                 tmp,
@@ -705,9 +710,9 @@ class RotationImplemented(BaseAlignmentModel):
         iopt = np.argmax(scores)
         opt_result = results[iopt]
         result = AlignmentResult(
-            label=0,
+            label=int(iopt),
             shift=opt_result[0],
-            quat=self.quaternions[iopt],
+            quat=self.quaternions[iopt // n_templates],
             score=opt_result[2],
         )
 
